@@ -151,6 +151,12 @@ theorem view_probe_spec (v : View ν α) (h : v.WF) (idx : List Nat) :
       rw [hout] at this
       cases this
 
+/-- non-vacuity of `v.WF ∧ v.leafIds.Nodup`: a 2-element tensor leaf -/
+example : ∃ v : View String Nat, v.WF ∧ v.leafIds.Nodup :=
+  ⟨View.tensor 0 ⟨[0, 1], [("a", 2)], [1]⟩,
+    (C02.constructors_establish_wf (ν := String) (α := Nat)).1 0 [("a", 2)] [0, 1] _ rfl
+      (by decide), by decide⟩
+
 /-- non-vacuity: a range over a reversed 2×3 tensor is a well-formed view with one leaf, and
     iterating it visits offsets 2, 1, 5, 4 -/
 example :
